@@ -113,6 +113,19 @@ func (v *vPart) followerAt(replica string, offset int64, epoch uint64) {
 	v.nc.Flush()
 }
 
+// lastCaughtUp: the moment the leader last saw the replica at its log end (zero if it has no replicator).
+func (v *vPart) lastCaughtUp(replica string) time.Time {
+	v.p.mu.RLock()
+	r := v.p.replicators[replica]
+	v.p.mu.RUnlock()
+	if r == nil {
+		return time.Time{}
+	}
+	r.mu.RLock()
+	defer r.mu.RUnlock()
+	return r.lastCaughtUp
+}
+
 func (v *vPart) isrOffsets() map[string]int64 {
 	v.p.mu.RLock()
 	defer v.p.mu.RUnlock()
